@@ -1,6 +1,8 @@
 // C19 — destroying a Lexicon frees all its memory; live use never touches dead storage.
 // Oracle: the engine's allocation table (every operator new/delete of the path); natively LeakSanitizer/AddressSanitizer on replay.
-#include "zoo.h"
+#define VP_WITH_IO
+#include "fingerprint.h"
+#include "vpstream.h"
 #ifndef C19_REPS
 #define C19_REPS 2
 #endif
@@ -49,3 +51,41 @@ extern "C" void h_destroy_populated(void) {
    vp_leakcheck();
    vp_done();
 }
+// a second life: Lexicon A (unit, zoo case, printing, decomposition, a module) lives and dies; then Lexicon B is used the same way and
+// everything it hands out is read through every accessor (names of the unit's global namespace included) and printed.  Every access is
+// checked against the allocation table, so anything B reaches that belonged to A is a use after free.  Registered twice: with an
+// allocator that never reuses addresses (stale pointers stay dead) and with one that reuses freed blocks (stale address-keyed memos).
+static void second_life(void) {
+   unsigned total = zoo::count();
+   std::ostringstream& osa = *new std::ostringstream; std::ostringstream& osb = *new std::ostringstream;       // harness-owned, outside the accounting window
+   vp_mark();
+   {
+      zoo::World* a = new zoo::World; a->concrete = true; a->printable = true;
+      Tracker ta; zoo::build(*a, 3, ta); zoo::build(*a, total - 1, ta); ta.snapshot();
+      const ipr::Translation_unit& ua = a->unit; Fingerprint f; fingerprint<ipr::Namespace>(&ua.global_namespace(), f); fingerprint<ipr::Name>(&ua.global_namespace().name(), f);
+      { Printer pp { a->lx, osa }; vp_outcome([&] { pp << a->unit; }); }
+      a->lx.decompose(a->lx.static_specifier() | a->lx.inline_specifier()); a->lx.decompose(a->lx.const_qualifier());
+      impl::Module* mod = new impl::Module(a->lx); mod->make_unit(); delete mod;
+      delete a;
+   }
+   zoo::World* b = new zoo::World; b->printable = true; b->concrete = true;      // the factory is symbolic, its operands are a deterministic choice
+   unsigned which = vp_pick(total);
+   vp_observe(1, which);
+   Tracker tb; zoo::build(*b, which, tb); tb.snapshot();
+   const ipr::Translation_unit& ub = b->unit;
+   const ipr::Namespace& gns = ub.global_namespace();
+   Fingerprint f; fingerprint<ipr::Namespace>(&gns, f); fingerprint<ipr::Name>(&gns.name(), f);
+   auto id = util::view<ipr::Identifier>(gns.name());
+   vp_assert(id != nullptr && id->string().size() == 0 && &gns.type() == &b->lx.namespace_type(), 2);        // unnamed, typed `namespace`
+   vp_assert(&b->lx.get_identifier(u8"") == id, 3);
+   { Printer pp { b->lx, osb }; vp_assert(vp_outcome([&] { pp << b->unit; }) != 2, 4); }
+   b->lx.decompose(b->lx.static_specifier() | b->lx.inline_specifier()); b->lx.decompose(b->lx.const_qualifier());
+   impl::Module* mod = new impl::Module(b->lx); const ipr::Module_unit& mu = *mod->make_unit();
+   Fingerprint g; fingerprint<ipr::Namespace>(&mu.global_namespace(), g); fingerprint<ipr::Name>(&mu.global_namespace().name(), g);
+   tb.recheck(5);
+   delete mod; delete b;
+   vp_leakcheck();
+   vp_done();
+}
+extern "C" void h_second_life(void) { second_life(); }
+extern "C" void h_second_life_reuse(void) { second_life(); }
